@@ -1224,7 +1224,8 @@ pub fn gen_c02(prop: &str, tier: Tier, rng: &mut Rng, seed: u64, run: u64) -> Pl
     let all: Vec<&str> = KINDS_F.iter().chain(KINDS_B.iter()).chain(KINDS_Q.iter()).copied().collect();
     for j in 0..nn {
         let kind = if j == nn - 1 { all[(run % all.len() as u64) as usize] } else { *rng.pick(&all) };
-        let n = random_node(rng, kind, specs.len(), &specs, leaf_bias, 5);
+        let max_arity = if rng.chance(0.3) { 8 } else { 5 };
+        let n = random_node(rng, kind, specs.len(), &specs, leaf_bias, max_arity);
         specs.push(n);
     }
     // equivalence twins: Sum2 ~ SumStream[2], Product2 ~ ProductStream[2], De Morgan
@@ -1480,6 +1481,11 @@ pub fn gen_graph(prop: &str, tier: Tier, rng: &mut Rng, seed: u64, run: u64) -> 
         }
     }
     plan
+}
+
+/// first run index after the enumerated blocks
+pub fn enum_end() -> u64 {
+    C02_ENUM + enum2_total() + enum3_total()
 }
 
 pub fn generate(prop: &str, tier: Tier, rng: &mut Rng, seed: u64, run: u64) -> Plan {
